@@ -1293,7 +1293,7 @@ func labelRule(c *Ctx, rule string, pkgs []string, floor int, insertHalf bool) {
 			continue
 		}
 		for _, w := range all[fn] {
-			if w.kind != "nodes-insert" {
+			if w.kind != "nodes-insert" || w.inHelper {
 				continue
 			}
 			key := w.key
